@@ -937,14 +937,30 @@ func (in *interp) write(o Op, w *wtxn) string {
 				}
 			}
 		}
-		if r := tbl.Revision(w.txn); r != beforeRev {
-			in.viol("C09", "rev-after-reject", "%s on a table the transaction does not hold was rejected but moved that table's revision from %d to %d", opNames[o.K], beforeRev, r)
+		// "changes nothing" is C03's claim, the revision part of it also C09's:
+		// the owner of the run judges first
+		c03 := func() {
+			if after := lightDigest(tbl, w.txn); after != before {
+				in.viol("C03", "unlocked-changed", "%s on a table the transaction does not hold changed the table as seen by the transaction", opNames[o.K])
+			}
+			if d := lightDigest(tbl, in.db.ReadTxn()); d != modelDigest(in.cur.tables[t]) {
+				in.viol("C03", "unlocked-changed", "%s on a table the transaction does not hold changed the committed state of that table", opNames[o.K])
+			}
 		}
-		if r, want := tbl.Revision(in.db.ReadTxn()), in.cur.tables[t].rev; r != want {
-			in.viol("C09", "rev-after-reject", "%s on a table the transaction does not hold was rejected but the committed revision of that table is now %d (model %d)", opNames[o.K], r, want)
+		c09 := func() {
+			if r := tbl.Revision(w.txn); r != beforeRev {
+				in.viol("C09", "rev-after-reject", "%s on a table the transaction does not hold was rejected but moved that table's revision from %d to %d", opNames[o.K], beforeRev, r)
+			}
+			if r, want := tbl.Revision(in.db.ReadTxn()), in.cur.tables[t].rev; r != want {
+				in.viol("C09", "rev-after-reject", "%s on a table the transaction does not hold was rejected but the committed revision of that table is now %d (model %d)", opNames[o.K], r, want)
+			}
 		}
-		if after := lightDigest(tbl, w.txn); after != before {
-			in.viol("C03", "unlocked-changed", "%s on a table the transaction does not hold changed the table as seen by the transaction", opNames[o.K])
+		if in.own == "C09" {
+			c09()
+			c03()
+		} else {
+			c03()
+			c09()
 		}
 		return obs
 	}
@@ -1014,7 +1030,11 @@ func (in *interp) write(o Op, w *wtxn) string {
 	}
 	// ---- C09: revision bookkeeping inside the transaction
 	gotRev := tbl.Revision(w.txn)
-	if gotRev != ts.rev {
+	if gotRev != ts.rev && !success && expectNoChange && in.own == "C03" {
+		// "a rejected operation changes nothing" is C03's claim as well: in C03's
+		// own runs the fingerprint comparison below (which includes the table
+		// revision) judges it
+	} else if gotRev != ts.rev {
 		if success {
 			in.viol("C09", "rev-after-write", "after successful %s the table revision in the transaction is %d, model %d (before %d)", opNames[o.K], gotRev, ts.rev, beforeRev)
 		} else {
